@@ -22,6 +22,8 @@
 (* Outcomes are *sets* of acceptable result tokens wherever the property   *)
 (* statement leaves the failure class open:                                *)
 (*   Established | UdpAssociated | AuthError | Failed | Reply1..Reply8     *)
+(*   | TimedOut (the upstream fell silent: the tunnel's establishment timer *)
+(*   ended the step)                                                       *)
 (* (`ReplyN`: the request failed with the server's reply code N).  ReqClass*)
 (* maps a token to what the tunnel reports for the request.                *)
 (*                                                                         *)
@@ -33,13 +35,13 @@
 (*   TextualBoundName a bound domain name that is not UTF-8 fails the      *)
 (*                    request.                                             *)
 (***************************************************************************)
-EXTENDS WireSocks, TLC
+EXTENDS WireSocks, TLC, TunnelCodes
 
 CONSTANTS
     AuthKinds,    \* credentials universe: name -> [src, raw, x, valid]
     DestKinds,    \* destination universe: name -> [cmd, addr, port]
     BndKinds,     \* bound addresses of the server's reply: name -> [atyp, field, port]
-    ExtParams,    \* [tls, ua, client4, client6]: what extended authentication reports besides the credentials
+    ExtParams,    \* [tls, ua, uaText, client4, client6]: what extended authentication reports besides the credentials
     Scenarios     \* set of scenario records
 
 VARIABLES
@@ -71,9 +73,18 @@ ReplyTok(c) == CASE c = 1 -> "Reply1" [] c = 2 -> "Reply2" [] c = 3 -> "Reply3" 
 \* the property's failure mapping (request level)
 ReqClass(tok) ==
     CASE tok \in {"Reply3", "Reply4"} -> "HostUnreachable"      \* network / host unreachable
-      [] tok = "Reply6" -> "Timeout"                             \* TTL expired
+      [] tok \in {"Reply6", "TimedOut"} -> "Timeout"               \* TTL expired; the establishment timer
       [] tok \in {"Reply1", "Reply2", "Reply5", "Reply7", "Reply8"} -> "Failed"
       [] OTHER -> tok                                            \* Established, UdpAssociated, AuthError, Failed
+
+\* What the client's tunnel request is answered with (C10: TunnelCodes.tla) when the forwarder's
+\* step on its behalf ends in this class: the error kinds of lib/src/socks5_forwarder.rs.
+HttpOfClass(c) ==
+    CASE c \in {"Established", "UdpAssociated"} -> R200
+      [] c = "AuthError"       -> ErrResp("Authentication")
+      [] c = "HostUnreachable" -> ErrResp("HostUnreachable")
+      [] c = "Timeout"         -> ErrResp("Timeout")
+      [] c = "Failed"          -> ErrResp("Other")
 
 \* a reply that went wrong after its code was read: a failed request in any case;
 \* if the code was a failure code its mapped class is acceptable as well
@@ -87,7 +98,10 @@ AfterCode(c) == IF c > 0 THEN {"Failed", ReplyTok(c)} ELSE F
 (* SNI token).  Variant: "no" (RFC 1929) | "e4ua" | "e6" (extended, with    *)
 (* an IPv4 client address and a User-Agent / an IPv6 address and none).     *)
 
-ExtVariants == {"no", "e4ua", "e6"}
+\* ("e4t": as "e4ua" with a User-Agent that is plain text, which an HTTP request head can carry)
+ExtVariants == {"no", "e4ua", "e6", "e4t"}
+WithV4Ua(ext) == ext \in {"e4ua", "e4t"}
+UaOf(ext) == IF ext = "e4t" THEN ExtParams.uaText ELSE ExtParams.ua
 
 Derive(k, ext) ==
     LET isNone == k.src = "none"
@@ -98,8 +112,8 @@ Derive(k, ext) ==
         p == IF k.src = "sni" THEN k.x ELSE PassOf(k.raw)
         method == IF isNone THEN MNoAuth ELSE IF ext = "no" THEN MUserPass ELSE MExtended
         exts == << [t |-> XDomain, v |-> ExtParams.tls],
-                   [t |-> XClientAddress, v |-> IF ext = "e4ua" THEN ExtParams.client4 ELSE ExtParams.client6] >>
-                \o (IF ext = "e4ua" THEN << [t |-> XUserAgent, v |-> ExtParams.ua] >> ELSE << >>)
+                   [t |-> XClientAddress, v |-> IF WithV4Ua(ext) THEN ExtParams.client4 ELSE ExtParams.client6] >>
+                \o (IF WithV4Ua(ext) THEN << [t |-> XUserAgent, v |-> UaOf(ext)] >> ELSE << >>)
                 \o << IF k.src = "sni" THEN [t |-> XSniAuth, v |-> << >>] ELSE [t |-> XProxyAuth, v |-> k.x] >>
         enc == IF isNone \/ ~ ok THEN TRUE
                ELSE IF ext = "no" THEN UserPassEncodable(u, p) ELSE ExtEncodable(exts)
@@ -158,36 +172,47 @@ DestOf(s) == DestTab[s.dest]
 (* alone (no chunking): messages written, octets of the stream used, and   *)
 (* the acceptable results                                                  *)
 
-PredOn(s, b) ==
+PredOnEof(s, b) ==
     LET a == AuthOf(s)
         d == DestOf(s)
         n == Len(b)
-        Out(em, used, c) == [emit |-> em, used |-> used, cls |-> c]
+        \* short: the conclusion is drawn from the end of the stream (the client wanted more)
+        Out(em, used, c) == [emit |-> em, used |-> used, cls |-> c, short |-> FALSE]
+        OutS(em, used, c) == [emit |-> em, used |-> used, cls |-> c, short |-> TRUE]
         G == << "greeting" >>
         AfterAuth(em, off) ==
             IF ~ d.enc THEN Out(em, off, F)
             ELSE LET em2 == Append(em, "request")
                      r == ParseReply(SubSeq(b, off + 1, n)) IN
-                 IF r.st # "ok" THEN Out(em2, off + r.used, AfterCode(r.code))
+                 IF r.st = "short" THEN OutS(em2, off + r.used, AfterCode(r.code))
+                 ELSE IF r.st # "ok" THEN Out(em2, off + r.used, AfterCode(r.code))
                  ELSE IF r.code # 0 THEN Out(em2, off + r.used, {ReplyTok(r.code)})
                  ELSE IF d.cmd = CmdConnect THEN Out(em2, off + r.used, {"Established"})
                  ELSE IF r.addr.t = "name" THEN Out(em2, off + r.used, F)
                  ELSE Out(em2, off + r.used, {"UdpAssociated"})
     IN
     IF ~ a.ok THEN Out(<< >>, 0, F)                      \* credentials unusable: nothing is sent
-    ELSE IF n < 1 THEN Out(G, n, FA)
+    ELSE IF s.refuse THEN Out(<< >>, 0, F)               \* the upstream does not take the connection
+    ELSE IF n < 1 THEN OutS(G, n, FA)
     ELSE IF b[1] # SocksVer THEN Out(G, 1, FA)
-    ELSE IF n < 2 THEN Out(G, n, FA)
+    ELSE IF n < 2 THEN OutS(G, n, FA)
     ELSE IF b[2] = MNoAuth THEN AfterAuth(G, 2)
     ELSE IF b[2] = a.method                                \* the offered authentication method
          THEN IF ~ a.enc THEN Out(G, 2, F)                 \* cannot be said in RFC 1929: fail silently
               ELSE LET G2 == Append(G, "auth") IN
-                   IF n < 3 THEN Out(G2, n, FA)
+                   IF n < 3 THEN OutS(G2, n, FA)
                    ELSE IF b[3] # SubVer THEN Out(G2, 3, FA)
-                   ELSE IF n < 4 THEN Out(G2, n, FA)
+                   ELSE IF n < 4 THEN OutS(G2, n, FA)
                    ELSE IF b[4] # 0 THEN Out(G2, 4, A)
                    ELSE AfterAuth(G2, 4)
     ELSE Out(G, 2, FA)                                     \* FF, a method not offered, an unknown method
+
+\* ... and when the server, instead of ending its side after `b`, falls silent (`silent`): a client
+\* that wants more waits, and the step is ended by the establishment timer of the tunnel
+\* (connection_establishment_timeout bounds every outgoing connection made for a request)
+\* (written with a parameter: TLC's coverage instrumentation walks a definition once per reference)
+Silenced(s, q) == IF s.silent /\ q.short THEN [q EXCEPT !.cls = {"TimedOut"}] ELSE q
+PredOn(s, b) == Silenced(s, PredOnEof(s, b))
 
 \* The stream of a scenario: everything the server has to say, or its first `trunc` octets,
 \* or (`exact`) just the octets a correct client reads, after which the server closes;
@@ -197,7 +222,8 @@ Success(c) == c = {"Established"} \/ c = {"UdpAssociated"}
 CutIfFail(f, p) == IF Success(p.cls) THEN f ELSE SubSeq(f, 1, p.used)
 StreamOf(s) ==
     LET f == StreamFull(s) IN
-    IF s.exact THEN SubSeq(f, 1, PredOn(s, f).used)
+    IF s.refuse THEN << >>
+    ELSE IF s.exact THEN SubSeq(f, 1, PredOn(s, f).used)
     ELSE IF s.exactIfFail THEN CutIfFail(f, PredOn(s, f))
     ELSE IF s.trunc < 0 THEN f
     ELSE SubSeq(f, 1, Min(s.trunc, Len(f)))
@@ -235,7 +261,7 @@ Finish(c) == pc' = "Done" /\ cls' = c
 
 \* the transport hands over the next chunk
 Deliver ==
-    /\ Blocked \/ (pc = "Greeting" /\ scn.preload /\ delivered = 0)
+    /\ Blocked \/ (pc = "Greeting" /\ scn.preload /\ delivered = 0 /\ ~ scn.refuse)
     /\ delivered < Len(stream)
     /\ LET rest == Len(stream) - delivered
            n == IF chunks = << >> THEN rest ELSE Min(Head(chunks), rest) IN
@@ -246,7 +272,7 @@ Deliver ==
 
 \* the server closes after its last octet
 Close ==
-    /\ Blocked /\ delivered = Len(stream) /\ ~ eof
+    /\ Blocked /\ delivered = Len(stream) /\ ~ eof /\ ~ scn.silent
     /\ eof' = TRUE
     /\ hist' = Append(hist, [ev |-> "eof", n |-> 0, pre |-> Obs])
     /\ UNCHANGED << scn, stream, pc, delivered, consumed, chunks, emitted, code, tmp, cls >>
@@ -258,15 +284,29 @@ ReadEof ==
     /\ Finish(IF pc \in {"SelVer", "SelMethod", "AuthVer", "AuthStatus"} THEN FA ELSE AfterCode(code))
     /\ UNCHANGED << scn, stream, delivered, eof, chunks, emitted, code, tmp, hist >>
 
+\* the server has fallen silent and the client wants more: the establishment timer of the tunnel
+\* (tokio::time::timeout around the forwarder's step in tunnel.rs) drops the dialogue
+EstablishTimeout ==
+    /\ Blocked /\ delivered = Len(stream) /\ scn.silent
+    /\ consumed' = delivered
+    /\ Finish({"TimedOut"})
+    /\ UNCHANGED << scn, stream, delivered, eof, chunks, emitted, code, tmp, hist >>
+
 \* make_auth fails (not base64, not UTF-8, no colon): the request fails before connect() is called
 MakeAuthFail ==
     /\ pc = "Greeting" /\ ~ AuthOf(scn).ok
     /\ Finish(F)
     /\ UNCHANGED << scn, stream, delivered, consumed, eof, chunks, emitted, code, tmp, hist >>
 
+\* TcpStream::connect to the upstream fails (nothing listens there): the request fails, nothing was said
+ConnectRefused ==
+    /\ pc = "Greeting" /\ AuthOf(scn).ok /\ scn.refuse
+    /\ Finish(F)
+    /\ UNCHANGED << scn, stream, delivered, consumed, eof, chunks, emitted, code, tmp, hist >>
+
 \* write_selection_message
 WriteGreeting ==
-    /\ pc = "Greeting" /\ AuthOf(scn).ok
+    /\ pc = "Greeting" /\ AuthOf(scn).ok /\ ~ scn.refuse
     /\ emitted' = Append(emitted, "greeting") /\ pc' = "SelVer"
     /\ UNCHANGED << scn, stream, delivered, consumed, eof, chunks, code, tmp, cls, hist >>
 
@@ -367,7 +407,7 @@ RdRepPort ==
     /\ Keep /\ UNCHANGED << emitted, code, tmp >>
 
 Next ==
-    \/ Deliver \/ Close \/ ReadEof \/ MakeAuthFail \/ WriteGreeting
+    \/ Deliver \/ Close \/ ReadEof \/ EstablishTimeout \/ MakeAuthFail \/ ConnectRefused \/ WriteGreeting
     \/ RdSelVer \/ RdSelMethod \/ WriteAuth \/ RdAuthVer \/ RdAuthStatus \/ WriteRequest
     \/ RdRepVer \/ RdRepCode \/ RdRepRsv \/ RdRepAtyp \/ RdRepIp \/ RdRepDomLen \/ RdRepDom \/ RdRepPort
 
@@ -378,7 +418,7 @@ Spec == Init /\ [][Next]_vars
 
 TypeOK ==
     /\ pc \in Pcs /\ delivered \in 0..Len(stream) /\ consumed \in 0..delivered
-    /\ cls \subseteq {"Established", "UdpAssociated", "AuthError", "Failed"} \cup { ReplyTok(c) : c \in 1..8 }
+    /\ cls \subseteq {"Established", "UdpAssociated", "AuthError", "Failed", "TimedOut"} \cup { ReplyTok(c) : c \in 1..8 }
     /\ (Done <=> cls # {})
 
 Has(m) == \E i \in 1..Len(emitted) : emitted[i] = m
